@@ -1,15 +1,14 @@
-SPECIFICATION Spec
+SPECIFICATION FairSpec
 CONSTANTS
   NUp = 2
   NDown = 2
   Retries = 3
-  NegAttempts = 10
-  MaxLoss = 5
-  MaxNegLoss = 2
-  PeerModes <- ModesAll
+  NegAttempts = 3
+  MaxLoss = 4
+  MaxNegLoss = 1
+  PeerModes <- ModesSL
   DenyReplies <- DenyOne
   AckTails <- TailsRssi
   Bug = "dequeue_on_lost"
-INVARIANT PropertyHolds
-INVARIANT CompleteAtRest
+PROPERTY EventuallyDelivered
 CHECK_DEADLOCK FALSE
